@@ -1240,6 +1240,9 @@ func genSubScenario(r *rand.Rand, sc int, profile string) subScenario {
 		if r.Intn(3) == 0 || (profile == "idle" && r.Intn(2) == 0) {
 			d.Target = "*"
 		}
+		if profile == "acl" && r.Intn(8) == 0 {
+			d.Target = "nosuch" // a target the cache does not know: refused - as unauthenticated first, if the caller is
+		}
 		if r.Intn(3) == 0 {
 			d.Origin = "oc"
 		}
